@@ -2708,18 +2708,24 @@ fn oracle_c16_emitted(ops: &[String], outs: &[String]) -> Option<OracleFail> {
         let pk = flush_packets(out);
         let mut ack: Option<String> = None;
         for p in pk.iter() {
-            let t = match decode(p) {
+            let t = match lib_decode(p) {
                 Some(t) => t,
                 None => return fail(i, "emitted-undecodable", format!("{} emitted a packet its own decoder rejects: {}", who, &p[..p.len().min(60)])),
             };
             let shown = show_term(&t);
+            if let Some(w) = decode(p) {
+                let on_wire = show_term(&w);
+                if on_wire != shown {
+                    return fail(i, "decoded-differs-from-wire", format!("{}: the library decodes its own packet to `{}`, the bytes say `{}`", who, &shown[..shown.len().min(100)], &on_wire[..on_wire.len().min(100)]));
+                }
+            }
             let mut buffer = [0u8; 1400];
             let mut oct = octets::OctetsMut::with_slice(&mut buffer);
             let len = match t.to_bytes(&mut oct) {
                 Ok(l) => l,
                 Err(e) => return fail(i, "emitted-reencode-fails", format!("{}: the decoded packet `{}` does not re-encode: {:?}", who, &shown[..shown.len().min(80)], e)),
             };
-            match decode(&hex(&buffer[..len])) {
+            match lib_decode(&hex(&buffer[..len])) {
                 Some(t2) if show_term(&t2) == shown => {}
                 _ => return fail(i, "emitted-reencode-differs", format!("{}: re-encoding the decoded packet `{}` decodes to another value", who, &shown[..shown.len().min(80)])),
             }
@@ -2845,6 +2851,43 @@ fn script_overflow_ack(rng: &mut Rng, _tier: Tier, ex: &mut dyn FnMut(&str) -> S
     flush_to(ex, &mut em, b, a, &mut |_, _| true);
     for _ in 0..12 {
         let dt = rng.pick(&[resend / 5, resend, resend + 1000]);
+        ex(&format!("upd c0 {}", dt));
+        ex(&format!("upd srv {}", dt));
+        ex(&format!("dump {}", a));
+        flush_to(ex, &mut em, a, b, &mut |_, _| true);
+        drain(ex, b, 1, 100);
+        flush_to(ex, &mut em, b, a, &mut |_, _| true);
+    }
+    ex("stat c0");
+    ex("stat s100");
+    ex("note healed");
+}
+
+/// C15 / C08 / C16: ONE acknowledgement packet with many (33..64+) disjoint ranges. A sliced reliable message goes out in
+/// one tick, every second datagram is lost, the receiver answers with a single Ack packet; after its processing nothing it
+/// covers may be transmitted again, and everything lost must be.
+fn script_many_ranges(rng: &mut Rng, _tier: Tier, ex: &mut dyn FnMut(&str) -> String) {
+    let resend = rng.pick(&[100_000u64, 300_000]);
+    let kind = rng.pick(&["RO", "RU"]);
+    let ch = vec![Chan { id: 1, kind, max_mem: 5 * 1024 * 1024, resend_us: resend }, Chan { id: 0, kind: "U", max_mem: 100_000, resend_us: 0 }];
+    ex(&cfg_line(400_000, &ch, &ch));
+    ex("cli 0");
+    ex("add 100");
+    ex("setc 0");
+    let mut em: HashMap<String, usize> = HashMap::new();
+    let who = rng.pick(&[("c0", "s100"), ("s100", "c0")]);
+    let (a, b) = (who.0, who.1);
+    let slices = rng.pick(&[40usize, 66, 70, 100, 128, 140]);
+    ex(&format!("send {} 1 {}", a, hex(&pat(slices * 1200 - rng.pick(&[0usize, 1, 700]), 5))));
+    ex("upd c0 20000");
+    ex("upd srv 20000");
+    let phase = rng.below(2) as usize;
+    flush_to(ex, &mut em, a, b, &mut |i, _| i % 2 == phase);
+    ex(&format!("dump {}", b));
+    flush_to(ex, &mut em, b, a, &mut |_, _| true);
+    ex(&format!("dump {}", a));
+    for _ in 0..8 {
+        let dt = rng.pick(&[resend / 3, resend, resend + 1000]);
         ex(&format!("upd c0 {}", dt));
         ex(&format!("upd srv {}", dt));
         ex(&format!("dump {}", a));
@@ -3017,6 +3060,16 @@ pub fn profiles() -> Vec<Profile> {
         cases: |t| if t == Tier::Quick { 24 } else { 300 },
         new_world,
         script: script_overflow_ack,
+        nontrivial: |_| true,
+        keep: keep_cfg,
+        fixed: None,
+    },
+    Profile {
+        name: "rn-timing-manyranges",
+        props: &["C15", "C08", "C01", "C02"],
+        cases: |t| if t == Tier::Quick { 12 } else { 120 },
+        new_world,
+        script: script_many_ranges,
         nontrivial: |_| true,
         keep: keep_cfg,
         fixed: None,
@@ -3871,10 +3924,103 @@ fn oracle_disconnect_justified(ops: &[String], outs: &[String]) -> Option<Oracle
 // ---------------------------------------------------------------------------------------------
 // oracles for C06 C08 C09 C12 C13 C14 C15
 // ---------------------------------------------------------------------------------------------
-fn decode(hexs: &str) -> Option<WPacket> {
+/// the LIBRARY's decoder (the code under test) — only for oracles that judge the decoder itself
+fn lib_decode(hexs: &str) -> Option<WPacket> {
     let b = unhex(hexs)?;
     let mut oct = octets::Octets::with_slice(&b);
     WPacket::from_bytes(&mut oct).ok()
+}
+
+/// An INDEPENDENT reader of renet's wire format (the format of the pinned tree: type byte, QUIC-style varints, u8 channel,
+/// u16 message count, newest-first ack ranges as (end, size, n, (gap, size)*)). The oracles read emitted datagrams with this
+/// parser, not with the library's `from_bytes`, so that a change of the library's decoder cannot blind the judge of the
+/// other properties (a seeded change that clamps the ack ranges read from a packet showed the dependency).
+/// Trailing bytes are ignored, as the library does.
+fn decode(hexs: &str) -> Option<WPacket> {
+    let b = unhex(hexs)?;
+    let mut pos = 0usize;
+    fn u8_at(b: &[u8], pos: &mut usize) -> Option<u8> {
+        let v = *b.get(*pos)?;
+        *pos += 1;
+        Some(v)
+    }
+    fn varint(b: &[u8], pos: &mut usize) -> Option<u64> {
+        let first = *b.get(*pos)?;
+        let len = 1usize << (first >> 6);
+        if *pos + len > b.len() {
+            return None;
+        }
+        let mut v = (first & 0x3f) as u64;
+        for k in 1..len {
+            v = (v << 8) | b[*pos + k] as u64;
+        }
+        *pos += len;
+        Some(v)
+    }
+    fn take<'a>(b: &'a [u8], pos: &mut usize, n: usize) -> Option<&'a [u8]> {
+        if *pos + n > b.len() {
+            return None;
+        }
+        let r = &b[*pos..*pos + n];
+        *pos += n;
+        Some(r)
+    }
+    let ty = u8_at(&b, &mut pos)?;
+    let sequence = varint(&b, &mut pos)?;
+    match ty {
+        0 | 1 => {
+            let channel_id = u8_at(&b, &mut pos)?;
+            let n = ((u8_at(&b, &mut pos)? as usize) << 8) | u8_at(&b, &mut pos)? as usize;
+            if ty == 0 {
+                let mut messages = Vec::new();
+                for _ in 0..n {
+                    let id = varint(&b, &mut pos)?;
+                    let len = varint(&b, &mut pos)? as usize;
+                    messages.push((id, bytes::Bytes::copy_from_slice(take(&b, &mut pos, len)?)));
+                }
+                Some(WPacket::SmallReliable { sequence, channel_id, messages })
+            } else {
+                let mut messages = Vec::new();
+                for _ in 0..n {
+                    let len = varint(&b, &mut pos)? as usize;
+                    messages.push(bytes::Bytes::copy_from_slice(take(&b, &mut pos, len)?));
+                }
+                Some(WPacket::SmallUnreliable { sequence, channel_id, messages })
+            }
+        }
+        2 | 3 => {
+            let channel_id = u8_at(&b, &mut pos)?;
+            let message_id = varint(&b, &mut pos)?;
+            let slice_index = varint(&b, &mut pos)? as usize;
+            let num_slices = varint(&b, &mut pos)? as usize;
+            let len = varint(&b, &mut pos)? as usize;
+            let payload = bytes::Bytes::copy_from_slice(take(&b, &mut pos, len)?);
+            let slice = WSlice { message_id, slice_index, num_slices, payload };
+            if ty == 2 {
+                Some(WPacket::ReliableSlice { sequence, channel_id, slice })
+            } else {
+                Some(WPacket::UnreliableSlice { sequence, channel_id, slice })
+            }
+        }
+        4 => {
+            let end = varint(&b, &mut pos)?;
+            let size = varint(&b, &mut pos)?;
+            let n = varint(&b, &mut pos)?;
+            let mut start = end.checked_sub(size)?;
+            let mut ranges = vec![start..end.checked_add(1)?];
+            for _ in 0..n {
+                let gap = varint(&b, &mut pos)?;
+                let size = varint(&b, &mut pos)?;
+                let e = start.checked_sub(gap)?.checked_sub(2)?;
+                let st = e.checked_sub(size)?;
+                ranges.push(st..e + 1);
+                start = st;
+            }
+            ranges.reverse();
+            Some(WPacket::Ack { sequence, ack_ranges: ranges })
+        }
+        _ => None,
+    }
 }
 
 fn flush_packets(out: &str) -> Vec<&str> {
